@@ -158,90 +158,11 @@ PathStr(p) == IF p.abs THEN "/" \o Join(p.comps) ELSE Join(p.comps)
 
 ProperPrefixes(p) == {Prefix(p, n) : n \in 1..(Len(p.comps) - 1)}
 
-----------------------------------------------------------------------------
-(* one record of the C28 driver: the real Match / ChildMatch / List / ListWithChild /      *)
-(* ValidatePatterns (and the Include/Reject closures of include.go / exclude.go) evaluated *)
-(* for one pattern list on EVERY path of a universe                                        *)
-(*   r.pats     the patterns [neg, abs, parts] in list order                               *)
-(*   r.alpha, r.depth   the universe: paths of <= depth components over alpha, abs and rel *)
-(*   r.fold     the case-insensitive closures were used (patterns and paths are compared   *)
-(*              in lower case)                                                             *)
-(*   r.single   TRUE when Match/ChildMatch were run too (one un-negated pattern)           *)
-(*   r.m        paths for which Match returned true                                        *)
-(*   r.c        paths of < depth components for which ChildMatch returned true            *)
-(*   r.l, r.lw  paths for which List / ListWithChild returned matched                      *)
-(*   r.lc       paths of < depth components for which ListWithChild said children may match*)
-(*   r.deep     paths of < depth components below which the REAL List accepted a path one  *)
-(*              or two levels below the universe                                           *)
-(*   r.err      some call returned an error;  r.panic  some call panicked                  *)
-(*   r.valerr   ValidatePatterns rejected the list                                         *)
+\* lower-casing of the strings of the alphabet (case-insensitive variants compare pattern and path
+\* in lower case)
 Lower(s) ==
   CASE s = "A" -> "a" [] s = "B" -> "b" [] s = "Ab" -> "ab" [] s = "aB" -> "ab" [] s = "AB" -> "ab"
     [] s = "A*" -> "a*" [] s = "*B" -> "*b" [] s = "[A-B]" -> "[a-b]" [] s = "[^A]" -> "[^a]"
     [] OTHER -> s
 LowerSeq(q) == [i \in DOMAIN q |-> Lower(q[i])]
-
-\* (written so that TLC enumerates the universe once per derived set: operator arguments are
-\* evaluated once, LET-bound sets would be re-evaluated at every use)
-Judge(r, LStr, Need, MStr) ==
-  /\ ~r.err
-  /\ ToSet(r.l) = LStr
-  /\ ToSet(r.lw) = LStr
-  /\ Need \subseteq ToSet(r.lc)            \* children-may-match is never false above a match
-  /\ ToSet(r.deep) \subseteq ToSet(r.lc)
-  /\ r.single =>
-       /\ ToSet(r.m) = MStr
-       /\ Need \subseteq ToSet(r.c)
-       /\ ToSet(r.deep) \subseteq ToSet(r.c)
-
-EffPats(r) == IF r.fold THEN [i \in DOMAIN r.pats |-> [r.pats[i] EXCEPT !.parts = LowerSeq(@)]] ELSE r.pats
-EffPath(r, q) == IF r.fold THEN [q EXCEPT !.comps = LowerSeq(@)] ELSE q
-
-\* LSeq: the paths of the universe the pattern list accepts (a sequence, so that TLC holds it
-\* evaluated); for one un-negated pattern Listed is Matches by definition
-JudgeSeq(r, LSeq) ==
-  Judge(r,
-        {PathStr(LSeq[k]) : k \in DOMAIN LSeq},
-        UNION {{PathStr(Prefix(LSeq[k], n)) : n \in 1..(Len(LSeq[k].comps) - 1)} : k \in DOMAIN LSeq},
-        IF r.single THEN {PathStr(LSeq[k]) : k \in DOMAIN LSeq} ELSE {})
-
-\* The entries of the universe each pattern names are computed once (NS[i], an explicit set); a
-\* path matches pattern i when it or one of its ancestors is in NS[i] -- this is Matches/Listed
-\* above, arranged so that TLC does the expensive part once per (pattern, entry).
-NamedOf(pat, r, U) == ToSet(SetToSeq({q \in U : Names(pat, EffPath(r, q))}))
-RECURSIVE NamedAll(_, _, _, _)
-NamedAll(P, r, U, i) == IF i > Len(P) THEN <<>> ELSE <<NamedOf(P[i], r, U)>> \o NamedAll(P, r, U, i + 1)
-
-InM(P, NS, i, p) ==
-  \/ p.abs /\ P[i].abs /\ Exact(P[i].parts, <<>>)
-  \/ \E n \in 1..Len(p.comps) : Prefix(p, n) \in NS[i]
-ListedNS(P, NS, p) ==
-  \E i \in 1..Len(P) :
-     /\ ~P[i].neg
-     /\ InM(P, NS, i, p)
-     /\ \A j \in (i + 1)..Len(P) : P[j].neg => ~InM(P, NS, j, p)
-
-JudgeNS(r, P, U, NS) == JudgeSeq(r, SetToSeq({p \in U : ListedNS(P, NS, p)}))
-JudgeOn(r, P, U) == JudgeNS(r, P, U, NamedAll(P, r, U, 1))
-
-\* the arrangement above is the declarative definition (checked by TLC in Fn_GlobDesign)
-ArrangementOK(r, P, U) ==
-  {p \in U : ListedNS(P, NamedAll(P, r, U, 1), p)} = {p \in U : Listed(P, EffPath(r, p))}
-
-RecBad(r) == \E i \in DOMAIN r.pats : BadPat(r.pats[i])
-RecU(r)   == Paths(ToSet(r.alpha), r.depth)
-
-RecOK(r) ==
-  /\ ~r.panic
-  /\ r.valerr = RecBad(r)
-  /\ RecBad(r) \/ JudgeOn(r, EffPats(r), RecU(r))
-
-\* what the model expects for a record (for violation reports): accepted paths and the directories
-\* above them
-ExpectedL(r) ==
-  IF RecBad(r) THEN {} ELSE {PathStr(p) : p \in {p \in RecU(r) : Listed(EffPats(r), EffPath(r, p))}}
-ExpectedNeed(r) ==
-  IF RecBad(r) THEN {}
-  ELSE UNION {{PathStr(Prefix(p, n)) : n \in 1..(Len(p.comps) - 1)} :
-                 p \in {p \in RecU(r) : Listed(EffPats(r), EffPath(r, p))}}
 =============================================================================
